@@ -407,6 +407,7 @@ func pairFamily(emit func(string)) {
 	}
 	for _, s := range []string{
 		"(a=>a)(1)", "(a=>a)[1]", "(a=>a).b", "((a,b)=>a)(1,2)", "(()=>1)()", "(func(){1})()", "func(){1}()", "a=>b=>c", "(a=>b)=>c", "a=>(b=>c)",
+		"a.(..)", "(..).a", "(..).(..)", "a.(..++)", "a.(..).b", "a[..]", "f(..)", ".. + ..",
 		"a[1:]", "a[1:2]", "a[b:]", "a[1:][2:]", "a[:2]", "a[1:2:3]", "a.b.c", "a.b[1].c(2)", "a[1][2]", "a(1)(2)", "a.b(1)", "(a.b)(1)", "a.(b)", "(a)(1)",
 		"a; -b", "a; +b", "a; ^b", "a; !b", "a; ~b", "a; ++b", "a; --b", "a\n-b", "a // c\n+ b", "a /* c */ + b", "a + /* c */ b", "a +\nb", "a; (b)", "a (b)", "a [b]", "a; [b]", "a\n[b]", "a\n(b)",
 		"a b", "a 1", "1 a", "a \"s\"", "\"s\" a", "a - -b", "a + +b", "a - --b", "a-- - b", "a + ++b", "(a++)+b", "a++ + b", "a+++b", "a++ +b", "a - (-b)", "-(-a)", "-(+a)", "!(!a)", "- -a", "--a", "-(--a)", "(--a)--",
